@@ -143,13 +143,22 @@ class Harness(object):
                 return POST(p, ep, rn)
             if m == ['get', 'Post']:
                 return Route(p, ep, rn, methods=('post', 'GET'))
-        return Route(p, ep, rn, methods=m)
+        if m is None:
+            return Route(p, ep, rn, methods=None)
+        mine = list(m)
+        rt = Route(p, ep, rn, methods=mine)
+        mine.append('PUT')        # the list stays the caller's: what happens to it afterwards is not the route's
+        return rt
 
     def build(self, table, mode, order=None):
         """order None: constructor list. Otherwise a permutation: insertion order of table positions."""
         from clastic import Application
         if order is None:
-            return Application([self.entry(i, d, 'list') for i, d in enumerate(table)], slash_mode=mode)
+            entries = [self.entry(i, d, 'list') for i, d in enumerate(table)]
+            app = Application(entries, slash_mode=mode)
+            # the caller's list of entries is not the routing table
+            entries.insert(0, self.entry(3, (2, 0, 0), 'list'))
+            return app
         app = Application([], slash_mode=mode)
         inserted = []
         for k, pos in enumerate(order):
